@@ -19,6 +19,7 @@ EXPLANATION = (
     "C15.N5: in the JSON form the envelope's disclosure list is replaced by the selected list on every path (shared with C10.F3). "
     "Equality of the narrowed presentation with the direct one is a relation between two runs and is not decided."
     " C15.N3 counts `?`-propagated errors like constructed ones. C15.N4: the list walkers pair selection and claims in lock step over the full element sequences (rule shared with C06.H2 / C01.f)."
+    " C15.N6: a branch condition in a selection walker may depend on holder / engine state only through keyed lookups of payload digests in the disclosure maps — not on a cached flag, a count or a scan over the disclosures that happen to be available, which differ between the issued SD-JWT and a narrowed presentation."
 )
 ASSUMPTIONS = [
     "only the necessary condition is claimed (see DESIGN.md)",
